@@ -1,6 +1,7 @@
 //! Native sanity tests of the reference models against the real code (run in
 //! setup.sh, not part of any verdict): the models must agree with the library on
 //! the repository's own test inputs and on small exhaustive enumerations.
+#![cfg(all(feature = "history", feature = "autocomplete", feature = "help"))]
 use embedded_cli::__verif::*;
 use vp::model::history as mh;
 
